@@ -8,7 +8,7 @@
      valid_vote v    : weight >= 0 and confidence >= 0
      thr_lt1 cfg     : custom ratio threshold < 1;  thr_le_half cfg : <= 1/2. *)
 From Coq Require Import ZArith List Bool QArith.
-From Verif Require Import C06.Model C06.Proofs C06.ProofsWorld C06.ProofsNonfinite.
+From Verif Require Import C06.Model C06.Proofs C06.ProofsWorld C06.ProofsNonfinite C06.ProofsReentry.
 Import ListNotations.
 Open Scope Q_scope.
 
@@ -735,3 +735,72 @@ Theorem c06_nonfinite_counts_exact :
 Proof. exact x_reports_proof. Qed.
 Print Assumptions c06_nonfinite_counts_exact.
 
+(* ====================================================================== *)
+(* Handlers that CALL BACK.  [RVote i sc on_r on_f]: run_vote on object i while
+   its on_quorum_reached / on_quorum_failed handlers (None: no handler on that
+   side) put a follow-up proposal - with ballots of its own - to the SAME
+   object before the call that invoked them has returned.  [rflatten] is the
+   history of plain calls such a history is (checked against the code on every
+   generated case): everything run_vote writes is written before a handler
+   runs, and what it returns is the result it aggregated itself. *)
+
+(* Every vote of such a history - made by the caller or by a handler from inside
+   another call - is the aggregation of the ballots cast IN THAT CALL by the
+   colony of that moment under the asked object's configuration: every
+   per-ballot theorem above holds for the result each call returns. *)
+Theorem c06_reentrant_every_vote_is_its_own_aggregate :
+  forall lg w rops i w' sc o,
+    In (i, w', sc, o) (wtrace lg w (rflatten lg w rops)) ->
+    exists p, nth_error (w_objs w') i = Some p /\ o = aggregate lg (pv_cfg p) (collect (voters_of (w_colony w') sc)).
+Proof. exact reentrant_votes_proof. Qed.
+Print Assumptions c06_reentrant_every_vote_is_its_own_aggregate.
+
+(* One call with re-entrant handlers, in any world: the OUTER call returns the
+   aggregation of the outer call's ballots (colony and configuration as they
+   were when it was made) - whatever a handler has had voted on meanwhile; the
+   nested call exists exactly when a handler is installed for the outer outcome
+   ([follow_up]), is made on the state the outer call has left and returns the
+   aggregation of ITS ballots. *)
+Theorem c06_reentrant_call_returns_its_own_result :
+  forall lg w i p sc on_r on_f,
+    nth_error (w_objs w) i = Some p ->
+    let out := aggregate lg (pv_cfg p) (collect (voters_of (w_colony w) sc)) in
+    let w1 := wstep lg w (WOn i (TOp (OSetCallbacks (handler_cb on_r) (handler_cb on_f)))) in
+    let w2 := wstep lg w1 (WOn i (TOp (OVote sc))) in
+    w_colony w1 = w_colony w /\ wtrace lg w (rexpand lg w (RVote i sc on_r on_f)) =
+      (i, w1, sc, out) ::
+      match follow_up out on_r on_f with
+      | Some sc' => [(i, w2, sc', aggregate lg (pv_cfg p) (collect (voters_of (w_colony w2) sc')))]
+      | None => []
+      end.
+Proof. exact reentrant_call_proof. Qed.
+Print Assumptions c06_reentrant_call_returns_its_own_result.
+
+(* ====================================================================== *)
+(* Long-lived instances that GRADE their voters (update_reliability /
+   update_all_reliability any number of times, in any order, between any other
+   operations, through any object).  When the numbers the CALLER hands over are
+   in range (initial weights and reliabilities, add_agent / set_agent_weight
+   weights >= 0: [wop_ok]), every member's reliability_score and weight are
+   >= 0 at every vote of every history, and so is the weight of every ballot:
+   the range hypotheses ([valid_vote]) of the criteria and of
+   c06_monotone_flip / c06_monotone_weight_conf can never be broken by what the
+   instance has learned. *)
+Theorem c06_learned_reliability_never_negative :
+  forall lg cfg tracking timeout ws ops i w' sc o,
+    Forall (fun wr : Q * Q => 0 <= fst wr /\ 0 <= snd wr) ws -> Forall wop_ok ops ->
+    In (i, w', sc, o) (wtrace lg (init_world cfg tracking timeout ws) ops) ->
+    Forall (fun p => 0 <= p_rel p /\ 0 <= p_weight p) (w_colony w') /\
+    Forall (fun v => 0 <= v_weight v) (collect (voters_of (w_colony w') sc)).
+Proof. exact world_weights_proof. Qed.
+Print Assumptions c06_learned_reliability_never_negative.
+
+(* ... also when handlers call back *)
+Theorem c06_reentrant_ballot_weights_never_negative :
+  forall lg cfg tracking timeout ws rops i w' sc o,
+    Forall (fun wr : Q * Q => 0 <= fst wr /\ 0 <= snd wr) ws -> Forall rop_ok rops ->
+    In (i, w', sc, o) (wtrace lg (init_world cfg tracking timeout ws)
+                              (rflatten lg (init_world cfg tracking timeout ws) rops)) ->
+    Forall (fun v => 0 <= v_weight v) (collect (voters_of (w_colony w') sc)).
+Proof. exact reentrant_weights_proof. Qed.
+Print Assumptions c06_reentrant_ballot_weights_never_negative.
